@@ -521,3 +521,22 @@ Proof.
       intros x Hx. apply (release_incl _ _ _ _ Er) in Hx. destruct (alloc_new_tag _ _ _ _ _ E2 x Hx) as [Hy|Hy]; [|right; assumption]. eapply alloc_new_tag; eauto.
   - intros H; inversion H; subst. split; [|discriminate]. intros x Hx. eapply alloc_new_tag; eauto.
 Qed.
+
+(** Known finding D11 (stated as a refuted theorem): "an add on an array that the allocator never refuses
+    succeeds" is false when capacity*(factor-1) < 1. With capacity 1 and factor 3/2 the computed new capacity
+    floor(1*3/2) = 1 is not larger than the old one, the code takes that for an overflow and asks for
+    CC_MAX_ELEMENTS slots, which no allocator grants: the second add fails although every reasonable request
+    would have been granted (empty fault plan, limit 2^40). The positive growth theorems carry the premise that
+    excludes it ([expand_spec] needs nothing, but its success branch is unreachable here; [growth_rate] states
+    2*den <= c*(num-den)). *)
+Theorem arr_growth_stuck_refuted :
+  exists a al x, plan al = [] /\ limit al = 1099511627776 /\ a_size a = 1 /\ a_cap a = 1 /\
+    (exists a' al', arr_add a x al = Ok (CC_ERR_ALLOC, a', al') /\ a' = a).
+Proof.
+  pose (al0 := alloc_init [] 1099511627776).
+  destruct (arr_new Conf 1 3 2 al0) as [[st r] al1] eqn:E. vm_compute in E.
+  exists {| a_data := [7]; a_cap := 1; a_slots := 1; a_num := 3; a_den := 2; a_hdr := 1; a_blk := 2; a_mem := Conf |}.
+  exists {| plan := []; limit := 1099511627776; next_id := 3;
+            live := [{| b_id := 2; b_tag := Conf; b_bytes := 8 |}; {| b_id := 1; b_tag := Conf; b_bytes := 56 |}]; nreq := 2 |}.
+  exists 9. repeat split. do 2 eexists. split; [vm_compute; reflexivity|reflexivity].
+Qed.
